@@ -77,6 +77,11 @@ func c01Segment(rt *rapid.T, label string) (string, bool) {
 	return string(b), long
 }
 
+func c01NamespaceID(rt *rapid.T, label string) string {
+	raw := c01Expand(rapid.Uint64().Draw(rt, label), 16)
+	return fmt.Sprintf("%x-%x-%x-%x-%x", raw[0:4], raw[4:6], raw[6:8], raw[8:10], raw[10:16])
+}
+
 // c01Key draws a storage key: 1-5 segments of [a-z0-9_-] joined with '/'.
 func c01Key(rt *rapid.T, label string) (string, string) {
 	depth := rapid.SampledFrom([]int{1, 1, 2, 2, 3, 3, 4, 5}).Draw(rt, label+"Depth")
@@ -93,6 +98,10 @@ func c01Key(rt *rapid.T, label string) (string, string) {
 	}
 	if anyLong {
 		shape += "-long"
+	}
+	if rapid.IntRange(0, 4).Draw(rt, label+"InNamespace") == 0 {
+		// the storage root of a namespace: namespaces/<uuid>/<the same relative layout as the root namespace>
+		return "namespaces/" + c01NamespaceID(rt, label+"NS") + "/" + strings.Join(segs, "/"), shape + "-in-namespace"
 	}
 	return strings.Join(segs, "/"), shape
 }
@@ -135,6 +144,7 @@ type c01Write struct {
 	ver      byte
 	viaTxn   bool
 	afterRot int
+	reseal   int // before this write: 0 nothing, 1 seal + unseal, 2 reload the keyring (what a new leader does)
 }
 
 type c01Final struct {
@@ -395,6 +405,7 @@ func c01Prop(rec *verifx.Recorder) func(rt *rapid.T) {
 			}
 			w.viaTxn = rapid.Bool().Draw(rt, lbl+"ViaTxn")
 			w.afterRot = rapid.IntRange(0, rotations).Draw(rt, lbl+"AfterRot")
+			w.reseal = []int{0, 0, 0, 1, 2, 0}[rapid.IntRange(0, 5).Draw(rt, lbl+"ResealBefore")]
 		}
 		readMode := rapid.IntRange(0, 2).Draw(rt, "readPath")
 		extendMode := rapid.SampledFrom([]string{"zeros", "self", "byte"}).Draw(rt, "extendFill")
@@ -408,6 +419,7 @@ func c01Prop(rec *verifx.Recorder) func(rt *rapid.T) {
 		for i := range bits {
 			bits[i] = rapid.IntRange(0, 7).Draw(rt, "bit")
 		}
+		otherNS := c01NamespaceID(rt, "dstNamespace")
 		sibling, _ := c01Segment(rt, "dstSibling")
 		otherTop, _ := c01Segment(rt, "dstTop")
 		child, _ := c01Segment(rt, "dstChild")
@@ -473,6 +485,19 @@ func c01Prop(rec *verifx.Recorder) func(rt *rapid.T) {
 					"Get inside the writing transaction did not return the value just put (err=%v)", gerr)
 			}
 		}
+		// a (term, nonce) pair is used once in the life of the store, reseals and keyring reloads included
+		nonces := map[string]string{}
+		noteNonce := func(key string, phys []byte) {
+			if len(phys) < 17+16 {
+				return
+			}
+			h := string(phys[:17])
+			if prev, dup := nonces[h]; dup {
+				rec.Violation(rt, "term-and-nonce-repeat", map[string]any{"key": verifx.Trunc(key, 120), "earlier_key": verifx.Trunc(prev, 120), "header_and_nonce": c01Hex(phys[:17])},
+					"two stored records start with the same term, version and nonce %x: both are encrypted with the same keystream", phys[:17])
+			}
+			nonces[h] = key
+		}
 		rotDone := 0
 		for step := 0; step <= rotations; step++ {
 			for i := range writes {
@@ -480,8 +505,24 @@ func c01Prop(rec *verifx.Recorder) func(rt *rapid.T) {
 				if w.afterRot != step {
 					continue
 				}
+				switch w.reseal {
+				case 1:
+					if err := b.Seal(); err != nil {
+						rt.Fatalf("harness: seal: %v", err)
+					}
+					if err := b.Unseal(ctx, rootKey); err != nil {
+						rt.Fatalf("harness: unseal after seal: %v", err)
+					}
+					r.counts["reseal-between-writes"]++
+				case 2:
+					if err := b.ReloadKeyring(ctx); err != nil {
+						rt.Fatalf("harness: reload keyring: %v", err)
+					}
+					r.counts["keyring-reload-between-writes"]++
+				}
 				putOnce(w)
 				phys1 := r.physGet(w.key)
+				noteNonce(w.key, phys1)
 				if phys1 == nil {
 					rec.Violation(rt, "put-not-stored", map[string]any{"key": verifx.Trunc(w.key, 120)}, "Put succeeded but the physical backend holds nothing under the key")
 				}
@@ -494,6 +535,7 @@ func c01Prop(rec *verifx.Recorder) func(rt *rapid.T) {
 				if i == 0 || len(w.val) <= 4096 {
 					putOnce(w)
 					phys2 := r.physGet(w.key)
+					noteNonce(w.key, phys2)
 					if bytes.Equal(phys1, phys2) {
 						rec.Violation(rt, "ciphertext-repeats", map[string]any{"key": verifx.Trunc(w.key, 120), "value": c01Hex(w.val), "record": c01Hex(phys1)},
 							"two writes of the same (key, value) produced identical stored bytes")
@@ -689,6 +731,16 @@ func c01Prop(rec *verifx.Recorder) func(rt *rapid.T) {
 			}
 			if len(tkey) > 1 {
 				dsts["transplant-shorter"] = tkey[:len(tkey)-1]
+			}
+			// across namespace storage roots: the same relative key in another namespace, in the root namespace, or
+			// (for a root-namespace record) below a namespace
+			if len(segs) > 2 && segs[0] == "namespaces" {
+				rel := strings.Join(segs[2:], "/")
+				dsts["transplant-other-namespace"] = "namespaces/" + otherNS + "/" + rel
+				dsts["transplant-namespace-to-root"] = rel
+				dsts["transplant-nested-namespace"] = "namespaces/" + segs[1] + "/namespaces/" + otherNS + "/" + rel
+			} else {
+				dsts["transplant-root-to-namespace"] = "namespaces/" + otherNS + "/" + tkey
 			}
 		}
 		dkinds := make([]string, 0, len(dsts))
